@@ -183,6 +183,23 @@ def obligations():
                         and b.id not in [a.arg for a in fn.args.args]:
                     bad.append('line %d: store into module-level object `%s`' % (x.lineno, ast.unparse(x)[:50]))
         ob('no-global-state:%s' % name, name, not bad, '; '.join(bad))
+    # class-level mutable attributes are shared by every instance (and every call): state would survive from one simulation to the next
+    for n in tree.body:
+        if isinstance(n, ast.ClassDef):
+            bad = []
+            for m in n.body:
+                tgts = []
+                if isinstance(m, ast.Assign):
+                    tgts, val = m.targets, m.value
+                elif isinstance(m, ast.AnnAssign) and m.value is not None:
+                    tgts, val = [m.target], m.value
+                else:
+                    continue
+                mutable = isinstance(val, (ast.List, ast.Dict, ast.Set, ast.ListComp, ast.DictComp, ast.SetComp)) or (
+                    isinstance(val, ast.Call) and ast.unparse(val.func).split('.')[-1] in ('list', 'dict', 'set', 'defaultdict', 'deque', 'Counter', 'OrderedDict', 'array', 'zeros'))
+                if mutable:
+                    bad.append('line %d: class attribute `%s` of %s is a mutable object shared by all instances' % (m.lineno, ast.unparse(tgts[0]), n.name))
+            ob('no-global-state:class %s' % n.name, n.name, not bad, '; '.join(bad), n.lineno)
     # mutable default arguments that are mutated would also carry state between calls
     for name, fn in sorted(fns.items()):
         bad = []
